@@ -260,7 +260,17 @@ func c20prop(r *simkit.Run) {
 			if iv {
 				must(rs.Add(time.Hour, 1, int64(rapid.IntRange(1, 3).Draw(rt, "burst"))))
 			} else {
-				must(rs.Add(time.Second, 1000, 1000))
+				// a generous quota the run cannot come near, stated over whatever period the caller likes - the limiter has
+				// no reason to intervene, whether the period is a millisecond or a day, alone or next to a second rate
+				periods := []time.Duration{time.Millisecond, 50 * time.Millisecond, 99 * time.Millisecond, 100 * time.Millisecond, 250 * time.Millisecond, time.Second, 1500 * time.Millisecond, time.Minute, time.Hour, 24 * time.Hour}
+				p1 := rapid.IntRange(0, len(periods)-1).Draw(rt, "quota-period")
+				must(rs.Add(periods[p1], 1000, int64(rapid.SampledFrom([]int{1000, 1000, 5000, 1_000_000}).Draw(rt, "quota-burst"))))
+				if rapid.IntRange(0, 2).Draw(rt, "second-quota") == 0 {
+					p2 := rapid.IntRange(0, len(periods)-1).Draw(rt, "quota-period-2")
+					if p2 != p1 {
+						must(rs.Add(periods[p2], 100_000, 100_000))
+					}
+				}
 			}
 			var tlOpts []ratelimit.TokenLimiterOption
 			if rapid.IntRange(0, 2).Draw(rt, "logger") == 0 {
